@@ -60,6 +60,7 @@ let outcome_s (f : 'a -> string list) (o : 'a outcome) : string list =
   | Crash m -> ["crash"; hex_of_bstr m]
   | Diverge -> ["diverge"]
   | OutOfFuel -> ["fuel"]
+  | OutOfModel -> ["outofmodel"]
 
 (* operation registry: each ops_*.ml file registers its operations *)
 let ops : (string, string list -> string list) Hashtbl.t = Hashtbl.create 64
